@@ -206,7 +206,10 @@ def cc_jobs(tier, cons_modes=(None, "bool", "real")):
 def vt_jobs(tier):
     jobs = [J("h_vt:HVT", D=1, nonlinear=False), J("h_vt:HVT", D=2, nonlinear=False), J("h_vt:HVT", D=1, nonlinear=True),
             J("h_vt:HVT", D=1, nonlinear=True, kinds=["inf"]), J("h_vt:HVT", D=2, nonlinear=False, kinds=["inf", "fin"]),
-            J("h_vt:HVT", D=2, nonlinear=False, kinds=[["conc", 1e-3, 1e-2, 1.0, 10.0], "fin"])]
+            J("h_vt:HVT", D=2, nonlinear=False, kinds=[["conc", 1e-3, 1e-2, 1.0, 10.0], "fin"]),
+            # mixed log / linear coordinates with an unbounded linear one (masking of the unused formula must not see inf)
+            J("h_vt:HVT", D=2, nonlinear=True, kinds=[["conc", 1e-3, 1e-2, 1.0, 10.0], ["conc", -float("inf"), -2.0, 3.0, float("inf")]]),
+            J("h_vt:HVT", D=2, nonlinear=True, kinds=[["conc", 1e-3, 1e-2, 1.0, float("inf")], ["conc", -5.0, -2.0, 3.0, 4.0]], points=False)]
     conc = [[1e-3, 1e-2, 1.0, 10.0], [1e-12, 1e-12, 1e-11, 1e12], [1.0, 1.0, 10.0, 10.0], [0.5, 1.0, 9.99, 20.0], [1e3, 1e4, 1e12, 1e12]]
     for c in conc:
         # point obligations only for moderate scales: with |bound| ~ 1e12 the float-evaluated anchors of log/exp are
@@ -269,6 +272,9 @@ def tail_jobs(tier, fault=False):
                     if level == 0 and nfs not in (0, 2):
                         continue
                     jobs.append(J("h_tail:HTAIL", D=D, level=level, it=it, nfs=nfs, fault=fault, bounded=(D == 1)))
+                    if level == 1 and nfs in (1, 2) and it in (0, 2):
+                        # noise auto-detected by the start-up test: the logger was constructed for a deterministic target
+                        jobs.append(J("h_tail:HTAIL", D=D, level=1, level0=0, it=it, nfs=nfs, fault=fault, bounded=(D == 1)))
     return jobs
 
 
@@ -415,9 +421,10 @@ PROPS["C05"] = dict(
 # ------------------------------------------------------------------------------------------------ C15
 C15_LABELS = {"training_rows_sorted_by_distance", "training_pair_is_logged_pair", "training_noise_is_logged_sd_squared", "no_noise_column_without_noise",
               "nearest_first", "no_closer_row_left_out", "training_set_size_rule", "all_flagged_rows_used", "training_set_extended_by_one",
-              "old_training_pairs_kept", "new_training_pair_is_the_observation", "posterior_updated", "acquisition_is_mean_minus_sqrt_beta_sd"}
+              "old_training_pairs_kept", "new_training_pair_is_the_observation", "posterior_updated", "acquisition_is_mean_minus_sqrt_beta_sd",
+              "returned_gp_keeps_its_training_set", "training_set_is_logged_data"}
 PROPS["C15"] = dict(
-    jobs=nb_jobs, labels=C15_LABELS, required=sorted(C15_LABELS),
+    jobs=lambda tier: nb_jobs(tier) + [j for j in rf_jobs(tier) if "HInitRetry" not in j["harness"]], labels=C15_LABELS, required=sorted(C15_LABELS),
     bounds=dict(quick="neighbour selection: <=3 logged rows, D<=2, scalar and concrete per-coordinate length scales, n_train_min/max in {(2,3),(1,2)}; posterior update: <=2 training rows; acquisition: D<=3, t in {1,2,7,50}",
                 thorough="4 logged rows, symbolic length scale for D=1, t in 1..50"),
     outside=["what gpyreg does with the training set", "periodic variables"],
@@ -465,12 +472,14 @@ PROPS["C01"] = dict(
 # ------------------------------------------------------------------------------------------------ C02
 C02_LABELS = {"oracle_called_once", "oracle_gets_inverse_transformed_rows", "returned_rows_feasible", "feasible_count",           # H-CC
               "poll_point_oracle_feasible", "evaluated_point_oracle_feasible", "design_point_oracle_feasible",                   # steps
+              "strategy_receives_constraint_and_sum_rule", "candidates_oracle_feasible",                                        # H-HG / H-ES
               "x0_rejection_only_if_oracle_violated", "accepted_snapped_x0_feasible", "snapped_x0_feasibility_checked",          # H-SB
               "accepted_x0_feasible", "x0_feasibility_checked", "target_never_called_by_constructor", "constraint_argument_in_hard_box",
               "constraint_argument_is_inverse_transform_of_u0"}
 PROPS["C02"] = dict(
     jobs=lambda tier: cc_jobs(tier, cons_modes=("bool", "real")) + [j for j in ps_jobs("quick", levels=(0,), cons=True, D2=False)][:: (1 if tier == "thorough" else 2)] +
     ss_jobs(tier, levels=(0,), cons=True) + [j for j in im_jobs(tier, cons=True) if j["params"]["nfs"] == 10] + [j for j in sb_jobs(tier, cons=True) if "HSInit" in j["harness"]] +
+    [j for j in es_jobs(tier) if j["params"].get("cons") or "HHG" in j["harness"]] +
     [J("h_bc:HBC", D=1, pat=_pat(1), spell={}, nonlinear=False, cons="bool"), J("h_bc:HBC", D=1, pat=_pat(1), spell={}, nonlinear=False, cons="real"),
      J("h_bc:HBC", D=2, pat=_pat(2, x0=None), spell={}, nonlinear=False, cons="bool")],
     labels=C02_LABELS, required=sorted(C02_LABELS),
@@ -516,6 +525,7 @@ def es_jobs(tier, cons=(None, "bool")):
 C18_LABELS = {"empty_search_set_only_without_survivors", "returned_value_is_lowest_acquisition_of_survivors", "returned_point_is_candidate_with_that_value",
               "candidates_inside_mesh_rounded_box", "candidates_oracle_feasible", "two_generations",
               "probabilities_sum_to_one", "each_probability_at_least_exploration_floor_at_most_one", "chosen_index_valid_and_strategy_invoked",
+              "strategy_receives_constraint_and_sum_rule",
               "search_at_most_one_evaluation", "hedge_called_once", "evaluated_point_is_projected_gridded_candidate", "evaluated_point_in_search_box"}
 PROPS["C18"] = dict(
     jobs=lambda tier: es_jobs(tier) + ss_jobs(tier, levels=(0, 1)), labels=C18_LABELS, required=sorted(C18_LABELS),
@@ -532,6 +542,8 @@ def rf_jobs(tier):
         for N, mf in (((10, 4), (12, 3)) if tier == "quick" else ((10, 4), (12, 3), (16, 6), (30, 9))):
             jobs.append(J("h_rf:HRobust", N=N, D=2, noise=noise, max_fail=mf))
         jobs.append(J("h_rf:HRobust", N=5, D=1, noise=noise, max_fail=2, symY=True))
+        jobs.append(J("h_rf:HRobust", N=5, D=2, noise=noise, max_fail=3))      # the first local refit has few points
+        jobs.append(J("h_rf:HRobust", N=5, D=1, noise=noise, max_fail=4, symY=True))
         if tier == "thorough":
             jobs.append(J("h_rf:HRobust", N=6, D=2, noise=noise, max_fail=2, symY=True))
         jobs.append(J("h_rf:HUpdate", noise=noise))
@@ -540,7 +552,7 @@ def rf_jobs(tier):
 
 
 C16_LABELS = {"linalg_failures_do_not_abort", "attempt_arguments_row_consistent", "attempt_rows_are_training_rows", "noise_column_kept_iff_noise",
-              "retries_until_success", "success_flag_reports_failures", "exit_flag_reports_failed_update", "failed_update_restores_previous_model",
+              "retries_until_success", "success_flag_reports_failures", "exit_flag_reports_failed_update", "returned_gp_keeps_its_training_set", "failed_update_restores_previous_model",
               "training_set_is_logged_data"}
 PROPS["C16"] = dict(
     jobs=rf_jobs, labels=C16_LABELS, required=sorted(C16_LABELS), exc_is_violation=True,
